@@ -24,7 +24,7 @@ def gen_header(rng, nitems=None, id_style=None, attrs=True):
     decls = []
     text = b""
     nitems = nitems or rng.choice([2, 4, 8, 14])
-    id_style = id_style or rng.choice(["dense", "dense", "sparse", "long", "wrap"])
+    id_style = id_style or rng.choice(["dense", "dense", "sparse", "long", "wrap", "tails"])
     ids = [i for i, _ in vcdgen.gen_vars(rng, nvars=nitems, style=id_style)] or [b"!"]
     used_ids = []
     depth = 0
